@@ -82,7 +82,7 @@ def theorems_in(mod):
         if m and ns and ns[-1] == m.group(1):
             ns.pop()
             continue
-        m = re.match(r"\s*(?:@\[[^\]]*\]\s*)*(?:private\s+|protected\s+)?(theorem|lemma)\s+([\w.']+)", line)
+        m = re.match(r"\s*(?:@\[[^\]]*\]\s*)*(?:private\s+|protected\s+)?(theorem|lemma)\s+([\w.'?!]+)", line)
         if m:
             names.append(".".join(ns + [m.group(2)]))
     return names
@@ -93,7 +93,7 @@ def statement_hashes(mod):
     p = lean_module_path(mod)
     text = strip_lean_comments(open(p).read())
     out = {}
-    for m in re.finditer(r"(?:theorem|lemma)\s+([\w.']+)(.*?):=", text, re.S):
+    for m in re.finditer(r"(?:theorem|lemma)\s+([\w.'?!]+)(.*?):=", text, re.S):
         out[m.group(1)] = hashlib.sha256(re.sub(r"\s+", " ", m.group(2)).encode()).hexdigest()[:12]
     return out
 
